@@ -365,6 +365,12 @@ def property_rebuild_forwards(ctx, rep: Report, rule: str):
         if not isinstance(m, list):
             raise AnalysisError(f"{rule}: _spec_property_base.{meth} not found")
         calls = [n for n in ast.walk(m[0].node) if isinstance(n, ast.Call) and ast.unparse(n.func) in ("type(self)", "self.__class__")]
+        if not calls:
+            for n in ast.walk(m[0].node):     # delegated to a private method of the class
+                if isinstance(n, ast.Call) and isinstance(n.func, ast.Attribute) and ast.unparse(n.func.value) == "self" and n.func.attr.startswith("_"):
+                    c2, m2 = ctx.p.lookup_method(base, n.func.attr)
+                    if isinstance(m2, list):
+                        calls = calls or [x for x in ast.walk(m2[0].node) if isinstance(x, ast.Call) and ast.unparse(x.func) in ("type(self)", "self.__class__")]
         ok = bool(calls) and any(k.arg is None and ast.unparse(k.value) == "self.attrs" for k in calls[0].keywords)
         rep.oblige(rule, f"_spec_property_base.{meth}", ok)
         if not ok:
